@@ -129,6 +129,9 @@ type Exec struct {
 	mapRanges     int
 	cur           ssa.Instruction
 	modelHits     int
+	regions       map[*ssa.BasicBlock]regionInfo
+	noIfConv      bool
+	ifConverted   int
 	totalSteps    int
 	started       time.Time
 	wallBudget    time.Duration
@@ -1033,6 +1036,9 @@ func (ex *Exec) step(c *ctx, in ssa.Instruction, work *[]*ctx, outs *[]Outcome) 
 		return ex.enterBlock(c, c.block.Succs[0], false)
 	case *ssa.If:
 		cond := ex.val(c, x.Cond).(*Term)
+		if !cond.IsConst() && ex.tryIfConvert(c, x, cond) {
+			return true
+		}
 		ts, fs := ex.split(st, cond)
 		switch {
 		case ts != nil && fs != nil:
